@@ -68,8 +68,7 @@ class Hierarchical:
             raise NumpyException("The fit function requires Numpy to be installed.")
         nb_series = len(series)
         cluster_idx = dict()
-        self.dists_options['only_triu'] = True
-        dists = self.dists_fun(series, **self.dists_options)
+        dists = self.dists_fun(series, **{**self.dists_options, 'only_triu': True})
         min_value = np.min(dists)
         min_idxs = np.argwhere(dists == min_value)
         if self.order_hook:
